@@ -166,6 +166,7 @@ type Obligation struct {
 	Status    string // discharged / refuted / unknown
 	Solver    string
 	Ms        int64
+	MaxPartMs int64 // for goals solved conjunct by conjunct: the slowest conjunct
 	Model     string
 	Output    string
 	Static    bool // decided by the engine without a solver
